@@ -12,7 +12,8 @@ use palette::convert::{
     IntoColorUnclampedMut,
 };
 use palette::white_point::D65;
-use palette::{Alpha, FromColor, Hsl, Hsv, Hwb, Lab, Lch, LinLuma, LinSrgb, Srgb, SrgbLuma, Xyz};
+use palette::convert::IntoColorUnclamped;
+use palette::{Alpha, FromColor, IntoColor, Hsl, Hsv, Hwb, Lab, Lch, LinLuma, LinSrgb, Srgb, SrgbLuma, Xyz};
 
 pub type Words = [u64; 4];
 
@@ -633,6 +634,26 @@ macro_rules! buf_enum {
                                         <Box<[C]> as FromColorUnclamped<Box<[U]>>>::from_color_unclamped(b)
                                     } else {
                                         <Box<[C]> as FromColor<Box<[U]>>>::from_color(b)
+                                    };
+                                    after = (ob.as_ptr() as usize, ob.len(), ob.len());
+                                    out = ob.into_vec();
+                                }
+                                super::Owned::VecInto => {
+                                    before = (v.as_ptr() as usize, v.len(), v.capacity());
+                                    out = if unclamped {
+                                        IntoColorUnclamped::<Vec<C>>::into_color_unclamped(v)
+                                    } else {
+                                        IntoColor::<Vec<C>>::into_color(v)
+                                    };
+                                    after = (out.as_ptr() as usize, out.len(), out.capacity());
+                                }
+                                super::Owned::BoxedInto => {
+                                    let b: Box<[U]> = v.into_boxed_slice();
+                                    before = (b.as_ptr() as usize, b.len(), b.len());
+                                    let ob: Box<[C]> = if unclamped {
+                                        IntoColorUnclamped::<Box<[C]>>::into_color_unclamped(b)
+                                    } else {
+                                        IntoColor::<Box<[C]>>::into_color(b)
                                     };
                                     after = (ob.as_ptr() as usize, ob.len(), ob.len());
                                     out = ob.into_vec();
